@@ -557,3 +557,9 @@ mod dmg_b16 {
     use super::*;
     include!(concat!(env!("MRECORDLOG_VERIF_HARNESS_DIR"), "/shards_damage.rs"));
 }
+
+#[cfg(all(quickwit_oss_mrecordlog_verif_block32, verif_thorough))]
+mod dmg_b32 {
+    use super::*;
+    include!(concat!(env!("MRECORDLOG_VERIF_HARNESS_DIR"), "/shards_damage32.rs"));
+}
